@@ -291,20 +291,23 @@ def runHdoc (o : Opts) (σ : St) (h : Hdoc) : St :=
   let σ := runLs o h.wordU σ
   if h.hasBody then advLine h.endLine σ else σ
 
-/-- `p.flushHeredocs()` -/
+/-- the loop over `hdocs` in `flushHeredocs` -/
+def hdocBodies (o : Opts) (hs : List Hdoc) (σ : St) : St := hs.foldl (runHdoc o) σ
+
+/-- `p.flushHeredocs()`: a pending comment on the current line is written before the bodies (the
+    inner `flushComments` finds no pending heredocs), the others are queued again afterwards. -/
 def flushHeredocs (o : Opts) (σ : St) : St :=
   match σ.hdocs with
   | [] => σ
   | h :: hs =>
-    let coms := σ.pending
-    let σ := { σ with hdocs := [], pending := [] }
-    let (σ, coms) :=
-      match coms with
-      | c :: rest =>
-        if c.pos.line = σ.line then (emitComs [c] σ, rest) else (σ, c :: rest)
-      | [] => (σ, [])
-    let σ := (h :: hs).foldl (runHdoc o) σ
-    { σ with pending := coms, mustNewline := true }
+    let σ1 : St := { σ with hdocs := [], pending := [] }
+    match σ.pending with
+    | c :: rest =>
+      if c.pos.line = σ.line then
+        { hdocBodies o (h :: hs) (emitComs [c] σ1) with pending := rest, mustNewline := true }
+      else
+        { hdocBodies o (h :: hs) σ1 with pending := c :: rest, mustNewline := true }
+    | [] => { hdocBodies o (h :: hs) σ1 with pending := [], mustNewline := true }
 
 /-- `p.flushComments()` -/
 def flushComments (o : Opts) (σ : St) : St :=
